@@ -119,8 +119,65 @@ def translator_run():
                   os.path.join(VERIF, "translate", "Cargo.toml")], timeout=1800)
     if rc != 0:
         raise MachineryError("translator does not build:\n" + out[-3000:])
+    probe = os.path.join(CACHE, "gen", "probe.txt")
+    if os.path.exists(probe):
+        os.remove(probe)
     rc, out = sh([tr, REPO, VERIF], timeout=300)
+    # A sequence whose into_stream body the recogniser does not know (a refactoring may write the same loop in many ways) is
+    # OBSERVED instead: the real sequence is run against [ack, reply v, reply v] for every variant v of its reply enum; v ends the
+    # exchange iff the second copy is left unread.  The translator is then run again with these observations (never overriding
+    # a shape it did recognise); Tables.probed names the sequences concerned.
+    names = [l.split(": ")[1] for l in out.splitlines() if l.startswith("unrecognised: ") and "into_stream has an unrecognised shape" in l]
+    if names:
+        try:
+            lines = probe_sequences(names)
+        except (MachineryError, HangFound):
+            lines = []               # no observation: the shape stays `unrecognised` and is reported as such
+        if lines:
+            write_lines(probe, lines)
+            env = dict(ENV, ZVT2COQ_PROBE=probe)
+            rc, out = sh([tr, REPO, VERIF], timeout=300, env=env)
     return rc == 0, out
+
+
+def probe_sequences(names):
+    from . import layouts
+    import random
+    L = layouts.load()
+    S = {s["name"]: s for s in L["structs"]}
+    E = {e["name"]: e for e in L["enums"]}
+    Q = {q["name"]: q for q in L["sequences"]}
+    seqb = harness_build("harness", ["seq"])["seq"]
+    rng = random.Random(7)
+    cases, meta = [], []
+    for n in names:
+        q = Q.get(n)
+        if q is None or q["input"] not in S or q["output"] not in E:
+            continue
+        _, cmd = layouts.gen_struct_value(rng, S[q["input"]])
+        for vn, target in E[q["output"]]["variants"]:
+            _, pkt = layouts.gen_struct_value(rng, S[target])
+            cases.append("seq\t%s\t%s\t%s" % (n, cmd.hex(), (bytes([0x80, 0, 0]) + pkt + pkt).hex()))
+            meta.append((n, vn, len(pkt)))
+    if not cases:
+        return []
+    wd = os.path.join(CACHE, "run", "probe")
+    os.makedirs(wd, exist_ok=True)
+    outs = run_sharded(seqb, cases, wd, "probe", shards=1)
+    finals, seen = {}, {}
+    for (n, vn, ln), o in zip(meta, outs):
+        seen.setdefault(n, [])
+        # the first reply was yielded; final iff exactly the second copy is left unread and nothing further was read
+        toks = o.split()
+        ys = [t for t in toks if t.startswith("Y:")]
+        left = int(toks[-1].split("=")[1]) if toks and toks[-1].startswith("left=") else -1
+        if len(ys) == 1 and not ys[0].startswith("Y:Err") and left == ln:
+            finals.setdefault(n, []).append(vn)
+        elif len(ys) >= 2 or (len(ys) == 1 and left < ln):
+            finals.setdefault(n, [])
+        else:
+            return []            # an observation that fits neither: leave the shape unrecognised
+    return ["%s\t%s" % (n, ",".join(f)) for n, f in finals.items()]
 
 
 def coq_makefile():
